@@ -1,10 +1,9 @@
-import itertools
 from collections.abc import Callable
 from typing import TypeVar, Union
 
 import reactivex
 from reactivex import Observable, abc
-from reactivex.internal.utils import infinite, is_future
+from reactivex.internal.utils import is_future
 from reactivex.typing import AnyFuture, Predicate
 
 _T = TypeVar("_T")
@@ -32,8 +31,20 @@ def while_do_(
 
         def factory(_: abc.SchedulerBase) -> Observable[_T]:
             # the repetition iterator is created per subscription
-            it = itertools.takewhile(condition, (obs for _ in infinite()))
-            return reactivex.concat_with_iterable(it)
+            def repetitions():
+                # a failing condition becomes a failing source: takewhile() let a StopIteration raised by the condition
+                # end the iteration silently (the sequence completed instead of delivering on_error)
+                while True:
+                    try:
+                        again = condition(obs)
+                    except Exception as ex:  # pylint: disable=broad-except
+                        yield reactivex.throw(ex)
+                        return
+                    if not again:
+                        return
+                    yield obs
+
+            return reactivex.concat_with_iterable(repetitions())
 
         return reactivex.defer(factory)
 
